@@ -154,6 +154,15 @@ def _tuple_index_simplify(e: ast.AST) -> ast.AST:
             if isinstance(node.value, ast.Tuple) and isinstance(node.slice, ast.Constant) and isinstance(node.slice.value, int) and \
                     -len(node.value.elts) <= node.slice.value < len(node.value.elts):
                 return node.value.elts[node.slice.value]
+            # [f(i) for i in range(n)][j] -> f(j): over range(n) (also list(range(n))) the element at position j is the one built for the value j
+            v = node.value
+            if isinstance(v, ast.ListComp) and len(v.generators) == 1 and not v.generators[0].ifs and isinstance(v.generators[0].target, ast.Name) and \
+                    isinstance(node.slice, ast.Name):
+                it = v.generators[0].iter
+                if isinstance(it, ast.Call) and dotted(it.func) == "list" and len(it.args) == 1:
+                    it = it.args[0]
+                if isinstance(it, ast.Call) and dotted(it.func) == "range" and len(it.args) == 1 and not it.keywords:
+                    return subst(copy.deepcopy(v.elt), {v.generators[0].target.id: ast.Name(id=node.slice.id, ctx=ast.Load())})
             return node
     return S().visit(e)
 
